@@ -79,17 +79,42 @@ class RobotModel:
         # embedded state machines (integration runs): components that are StateMachines,
         # autonomous modes that are AutonomousStateMachine / StatefulAutonomous
         clock = lambda stall=0: self.now * 1e-6
+        model = self
+
+        class Hooks:
+            """the embedded machine's state functions are user callbacks of the robot: log them where they happen"""
+
+            def __init__(self, prefix):
+                self.prefix = prefix
+
+            def on_call(self, st, tm, state_tm, initial, in_eng, started):
+                model.sm_calls += 1
+                site = f"{self.prefix}.st.{st}"
+                n = model.cb(site, [tm, state_tm, initial])
+                for a in list(model.ev.get((site, n), ())) + list(model.ev.get((site, "*"), ())):
+                    if a[0] == "smnext":
+                        return ("next", a[1], 0)
+                    if a[0] == "smnow":
+                        return ("now", a[1], 0)
+                    if a[0] == "smdone":
+                        return ("done", None, 0)
+                return None
+
+            def on_done(self):
+                model.sm_stops += 1
+                model.note(f"{self.prefix}.done")
+
         self.sms = {}
         for c in self.comps:
             if c.get("machine"):
                 m = c["machine"]
                 durs = {st["name"]: st["duration"] for st in m["states"] if st["kind"] == "timed"}
-                self.sms[c["name"]] = SMModel(m, durs, clock, exact=bool(cfg["dyadic"]), asm=False)
+                self.sms[c["name"]] = SMModel(m, durs, clock, exact=bool(cfg["dyadic"]), asm=False, hooks=Hooks(c["name"]))
         self.mode_models = {}
         for m in cfg["modes"]:
             if m.get("kind") == "asm":
                 durs = {st["name"]: st["duration"] for st in m["machine"]["states"] if st["kind"] == "timed"}
-                self.mode_models[m["name"]] = ("asm", SMModel(m["machine"], durs, clock, exact=bool(cfg["dyadic"]), asm=True))
+                self.mode_models[m["name"]] = ("asm", SMModel(m["machine"], durs, clock, exact=bool(cfg["dyadic"]), asm=True, hooks=Hooks("mode." + m["name"])))
             elif m.get("kind") == "sa":
                 self.mode_models[m["name"]] = ("sa", SAModel(dict(m["machine"], vars=[]), exact=bool(cfg["dyadic"])))
         self.sm_calls = 0
@@ -108,6 +133,7 @@ class RobotModel:
         acts = self.ev.get((site, n), ())
         acts = list(acts) + list(self.ev.get((site, "*"), ()))
         do_raise = False
+        sm_acted = False
         for a in acts:
             k = a[0]
             if k == "ds":
@@ -131,21 +157,17 @@ class RobotModel:
             elif k == "engage":
                 if a[1] in self.sms:
                     self.sms[a[1]].engage()
-            elif k in ("smnext", "smdone"):
+            elif k in ("smnext", "smdone", "smnow") and not sm_acted:
+                sm_acted = True
                 sm = self._owner_machine(site)
-                if sm is not None:
-                    if k == "smnext" and a[1] in sm.states and sm.states[a[1]]["kind"] != "default":
-                        if isinstance(sm, SMModel):
-                            sm._enter(a[1])
-                        else:
-                            sm.cur, sm.fresh = a[1], True
+                if sm is not None and not isinstance(sm, SMModel):
+                    # StatefulAutonomous: next_state()/done() take effect from the next iteration
+                    if k == "smnext" and a[1] in sm.states:
+                        sm.cur, sm.fresh = a[1], True
                     elif k == "smdone":
-                        if isinstance(sm, SMModel):
-                            sm._done()
-                            sm.take()
-                            self.note(site.split(".st.")[0] + ".done")
-                        else:
-                            sm.cur = None
+                        sm.cur = None
+            elif k == "ntdur":
+                self._nt_duration(a[1], a[2], a[3])
         if do_raise:
             self.faults_fired += 1
             raise ModelFault(site, n)
@@ -167,15 +189,18 @@ class RobotModel:
         self.visits[site] = n
         self.log.append([site, n, self.now, self.mode_nt, self.snapshot(), extra])
 
+    def _nt_duration(self, owner, state, value):
+        """the dashboard edits a duration topic of an embedded machine"""
+        sm = self.sms.get(owner)
+        if sm is None and owner.startswith("mode."):
+            mm = self.mode_models.get(owner[5:])
+            sm = mm[1] if mm and mm[0] == "asm" else None
+        if sm is not None and state in sm.dur:
+            sm.dur[state] = value
+
     def _sm_step(self, prefix, sm, fn):
         fn()
-        for ev in sm.take():
-            if ev[0] == "CALL":
-                self.sm_calls += 1
-                self.cb(f"{prefix}.st.{ev[1]}", [ev[2], ev[3], ev[4]])
-            elif ev[0] == "DONE":
-                self.sm_stops += 1
-                self.note(f"{prefix}.done")
+        sm.take()
         self.note(f"{prefix}.post", [sm.executing, sm.cs])
 
     def guarded(self, site, extra=None):
@@ -215,6 +240,8 @@ class RobotModel:
             elif k == "clobber":
                 if a[1] in self.fb_nt:
                     self.fb_nt[a[1]] = a[2]
+            elif k == "ntdur":
+                self._nt_duration(a[1], a[2], a[3])
         if n >= self.cap:
             self.done = True
         self.expiry += self.p
